@@ -496,27 +496,22 @@ func c18RenameKeepsHistory(e *Env) {
 		return
 	}
 	n := 0
-	for _, ci := range ir.CallsIn(fn, func(c *ssa.CallCommon) bool { return ir.IsCallTo(c, "os.Remove", "os.RemoveAll") }) {
-		n++
-		lits := e.DCS(ci)
-		empty := false
-		for _, l := range lits {
-			if l.Kind == "cmp" && (l.Op == token.EQL || l.Op == token.LEQ) {
-				if k, ok := ir.ConstInt(l.Y); ok && k == 0 {
-					if c, ok := ir.Resolve(l.X).(*ssa.Call); ok {
-						if bi, ok := c.Call.Value.(*ssa.Builtin); ok && bi.Name() == "len" {
-							empty = true
-						}
-					}
-				}
-			}
+	closure := e.staticClosure(fn)
+	var mv []ssa.CallInstruction
+	for _, g := range closure {
+		if rootFn(g).Package() != fn.Package() {
+			continue
 		}
-		recursive := ir.IsCallTo(ci.Common(), "os.RemoveAll")
-		r.Check(!recursive && empty || !recursive, "history Rename: old directory removed non-recursively (and only when found empty)", e.InstrPos(ci),
-			"renaming removes the old history directory recursively: when old and new name resolve to the same directory, or a file could not be moved, recorded runs are deleted", e.FactsStr("dominating conditions: ", lits))
+		for _, ci := range ir.CallsIn(g, func(c *ssa.CallCommon) bool { return ir.IsCallTo(c, "os.Remove", "os.RemoveAll") }) {
+			n++
+			lits := e.DCS(ci)
+			recursive := ir.IsCallTo(ci.Common(), "os.RemoveAll")
+			r.Check(!recursive, "history Rename: old directory removed non-recursively (and only when found empty)", e.InstrPos(ci),
+				"renaming removes the old history directory recursively: when old and new name resolve to the same directory, or a file could not be moved, recorded runs are deleted", e.FactsStr("dominating conditions: ", lits))
+		}
+		// the per-file move is an os.Rename of a glob match of the old pattern into newDir
+		mv = append(mv, ir.CallsIn(g, func(c *ssa.CallCommon) bool { return ir.IsCallTo(c, "os.Rename") })...)
 	}
-	// the per-file move is an os.Rename of a glob match of the old pattern into newDir
-	mv := ir.CallsIn(fn, func(c *ssa.CallCommon) bool { return ir.IsCallTo(c, "os.Rename") })
 	r.Check(len(mv) == 1, "history Rename: files are moved with os.Rename", e.Pos(fn.Pos()), sprintf("found %d os.Rename calls", len(mv)))
 	_ = n
 }
